@@ -68,6 +68,7 @@ import (
 	"google.golang.org/grpc"
 	"google.golang.org/grpc/credentials/insecure"
 	"google.golang.org/grpc/test/bufconn"
+	"google.golang.org/protobuf/proto"
 )
 
 const curEpoch = 10
@@ -245,7 +246,7 @@ func (f srvChain) SelectContainerNodes(cid.ID) ([][]netmap.NodeInfo, []uint, []i
 	return nil, nil, nil, errors.New("fake")
 }
 func (f srvChain) Get(id cid.ID) (container.Container, error) { return cnrSrc{f.w}.Get(id) }
-func (srvChain) IsOwnPublicKey([]byte) bool                  { return false }
+func (srvChain) IsOwnPublicKey([]byte) bool                   { return false }
 func (srvChain) CurrentEpoch() uint64                         { return curEpoch }
 func (srvChain) CurrentBlock() uint32                         { return 100 }
 func (srvChain) CurrentEpochDuration() uint64                 { return 240 }
@@ -294,6 +295,16 @@ func (h handlersFake) Put(context.Context) (*putsvc.Streamer, error) {
 }
 func (h handlersFake) Head(_ context.Context, p getsvc.HeadPrm) error {
 	h.w.effect("handlers.Head")
+	if h.w.binary {
+		// local storage path: the object's non-payload fields are read into the Server's buffer
+		if buf, submit := p.VerifBuffer(); buf != nil && submit != nil {
+			b := h.w.obj.Marshal()
+			if len(b) <= len(buf) {
+				submit(copy(buf, b))
+				return nil
+			}
+		}
+	}
 	return p.VerifObjectWriter().WriteHeader(h.w.obj)
 }
 func (h handlersFake) Delete(context.Context, deletesvc.Prm) error {
@@ -652,7 +663,8 @@ func aclMain(args []string) {
 		var c caseF
 		c.Kind = kinds[g.n(len(kinds))]
 		c.Tomb = c.Kind == "put" && g.p(35)
-		c.TTL1 = g.p(40)
+		ttl := uint32(pick(g, []int{0, 1, 1, 1, 2, 2, 3}))
+		c.TTL1 = ttl == 1
 		c.Cnr, c.Owner = 1, 1
 		c.Author = pick(g, []int{1, 1, 1, 2, 2, 2, 2, 3, 4, 4, 5, 5, 5})
 		req := u.actors[c.Author]
@@ -773,7 +785,7 @@ func aclMain(args []string) {
 		}
 		objVals := []string{cidS, oidS, u.actors[c.ObjOwner].id.EncodeToString(), u.actors[c.Author].id.EncodeToString(), typ.String(), ver.String(), "REGULAR"}
 		w.obj = &obj
-		c.Binary = c.Kind == "get" && g.p(50)
+		c.Binary = (c.Kind == "get" || c.Kind == "head") && g.p(50)
 		w.binary = c.Binary
 
 		likelyRole := eacl.RoleOthers
@@ -820,15 +832,13 @@ func aclMain(args []string) {
 		for k := g.n(3); k > 0; k-- {
 			c.XHdrs = append(c.XHdrs, hdrF{pick(g, hdrKeys[:2]), pick(g, hdrVals)})
 		}
-		mh := &protosession.RequestMetaHeader{Version: version.Current().ProtoMessage(), Ttl: 2}
-		if c.TTL1 {
-			mh.Ttl = 1
-		}
+		mh := &protosession.RequestMetaHeader{Version: version.Current().ProtoMessage(), Ttl: ttl}
 		for _, h := range c.XHdrs {
 			mh.XHeaders = append(mh.XHeaders, &protosession.XHeader{Key: h[0], Value: h[1]})
 		}
 
 		// bearer token
+		var warm *protoacl.BearerToken // the valid original of a token invalidated after signing
 		if g.p(45) {
 			bf := &bearerF{Valid: true}
 			bf.Issuer = pick(g, []int{1, 1, 1, 1, 1, 1, 1, 1, 2, 3})
@@ -867,6 +877,9 @@ func aclMain(args []string) {
 				panic(err)
 			}
 			bm := bt.ProtoMessage()
+			if how == "sig_flip" || how == "body_changed" || how == "foreign_key" {
+				warm = proto.Clone(bm).(*protoacl.BearerToken)
+			}
 			switch how {
 			case "sig_flip":
 				bm.Signature.Sign[len(bm.Signature.Sign)/2] ^= 0x04
@@ -899,85 +912,99 @@ func aclMain(args []string) {
 		var msg string
 		var rpcErr error
 		data := false
-		switch c.Kind {
-		case "get":
-			r := &protoobject.GetRequest{Body: &protoobject.GetRequest_Body{Address: addr}, MetaHeader: mh}
-			r.VerifyHeader, _ = neofscrypto.SignRequestWithBuffer(signer, r, nil)
-			st, err := cl.Get(ctx, r)
-			rpcErr = err
-			if err == nil {
-				first := true
-				for {
-					resp, err := st.Recv()
-					if err != nil {
-						if !errors.Is(err, io.EOF) && first {
-							rpcErr = err
+		send := func() {
+			code, msg, rpcErr, data = 0, "", nil, false
+			switch c.Kind {
+			case "get":
+				r := &protoobject.GetRequest{Body: &protoobject.GetRequest_Body{Address: addr}, MetaHeader: mh}
+				r.VerifyHeader, _ = neofscrypto.SignRequestWithBuffer(signer, r, nil)
+				st, err := cl.Get(ctx, r)
+				rpcErr = err
+				if err == nil {
+					first := true
+					for {
+						resp, err := st.Recv()
+						if err != nil {
+							if !errors.Is(err, io.EOF) && first {
+								rpcErr = err
+							}
+							break
 						}
-						break
-					}
-					if s := resp.GetMetaHeader().GetStatus(); s.GetCode() != 0 || first {
-						code, msg = s.GetCode(), s.GetMessage()
-					}
-					first = false
-					if resp.GetBody().GetObjectPart() != nil {
-						data = true
-					}
-				}
-			}
-		case "range":
-			r := &protoobject.GetRangeRequest{Body: &protoobject.GetRangeRequest_Body{Address: addr, Range: &protoobject.Range{Offset: 0, Length: 1}}, MetaHeader: mh}
-			r.VerifyHeader, _ = neofscrypto.SignRequestWithBuffer(signer, r, nil)
-			st, err := cl.GetRange(ctx, r)
-			rpcErr = err
-			if err == nil {
-				first := true
-				for {
-					resp, err := st.Recv()
-					if err != nil {
-						if !errors.Is(err, io.EOF) && first {
-							rpcErr = err
+						if s := resp.GetMetaHeader().GetStatus(); s.GetCode() != 0 || first {
+							code, msg = s.GetCode(), s.GetMessage()
 						}
-						break
-					}
-					if first {
-						code, msg = resp.GetMetaHeader().GetStatus().GetCode(), resp.GetMetaHeader().GetStatus().GetMessage()
 						first = false
+						if resp.GetBody().GetObjectPart() != nil {
+							data = true
+						}
 					}
 				}
-			}
-		case "head":
-			r := &protoobject.HeadRequest{Body: &protoobject.HeadRequest_Body{Address: addr}, MetaHeader: mh}
-			r.VerifyHeader, _ = neofscrypto.SignRequestWithBuffer(signer, r, nil)
-			resp, err := cl.Head(ctx, r)
-			rpcErr = err
-			code, msg = resp.GetMetaHeader().GetStatus().GetCode(), resp.GetMetaHeader().GetStatus().GetMessage()
-			data = resp.GetBody().GetHead() != nil
-		case "delete":
-			r := &protoobject.DeleteRequest{Body: &protoobject.DeleteRequest_Body{Address: addr}, MetaHeader: mh}
-			r.VerifyHeader, _ = neofscrypto.SignRequestWithBuffer(signer, r, nil)
-			resp, err := cl.Delete(ctx, r)
-			rpcErr = err
-			code, msg = resp.GetMetaHeader().GetStatus().GetCode(), resp.GetMetaHeader().GetStatus().GetMessage()
-		case "search":
-			r := &protoobject.SearchV2Request{Body: &protoobject.SearchV2Request_Body{ContainerId: u.cnrs[1].ProtoMessage(), Version: 1, Count: 10}, MetaHeader: mh}
-			r.VerifyHeader, _ = neofscrypto.SignRequestWithBuffer(signer, r, nil)
-			resp, err := cl.SearchV2(ctx, r)
-			rpcErr = err
-			code, msg = resp.GetMetaHeader().GetStatus().GetCode(), resp.GetMetaHeader().GetStatus().GetMessage()
-		case "put":
-			mo := obj.ProtoMessage()
-			r := &protoobject.PutRequest{Body: &protoobject.PutRequest_Body{ObjectPart: &protoobject.PutRequest_Body_Init_{Init: &protoobject.PutRequest_Body_Init{
-				ObjectId: mo.ObjectId, Header: mo.Header}}}, MetaHeader: mh}
-			r.VerifyHeader, _ = neofscrypto.SignRequestWithBuffer(signer, r, nil)
-			st, err := cl.Put(ctx)
-			rpcErr = err
-			if err == nil {
-				_ = st.Send(r)
-				resp, err := st.CloseAndRecv()
+			case "range":
+				r := &protoobject.GetRangeRequest{Body: &protoobject.GetRangeRequest_Body{Address: addr, Range: &protoobject.Range{Offset: 0, Length: 1}}, MetaHeader: mh}
+				r.VerifyHeader, _ = neofscrypto.SignRequestWithBuffer(signer, r, nil)
+				st, err := cl.GetRange(ctx, r)
+				rpcErr = err
+				if err == nil {
+					first := true
+					for {
+						resp, err := st.Recv()
+						if err != nil {
+							if !errors.Is(err, io.EOF) && first {
+								rpcErr = err
+							}
+							break
+						}
+						if first {
+							code, msg = resp.GetMetaHeader().GetStatus().GetCode(), resp.GetMetaHeader().GetStatus().GetMessage()
+							first = false
+						}
+					}
+				}
+			case "head":
+				r := &protoobject.HeadRequest{Body: &protoobject.HeadRequest_Body{Address: addr}, MetaHeader: mh}
+				r.VerifyHeader, _ = neofscrypto.SignRequestWithBuffer(signer, r, nil)
+				resp, err := cl.Head(ctx, r)
 				rpcErr = err
 				code, msg = resp.GetMetaHeader().GetStatus().GetCode(), resp.GetMetaHeader().GetStatus().GetMessage()
+				data = resp.GetBody().GetHead() != nil
+			case "delete":
+				r := &protoobject.DeleteRequest{Body: &protoobject.DeleteRequest_Body{Address: addr}, MetaHeader: mh}
+				r.VerifyHeader, _ = neofscrypto.SignRequestWithBuffer(signer, r, nil)
+				resp, err := cl.Delete(ctx, r)
+				rpcErr = err
+				code, msg = resp.GetMetaHeader().GetStatus().GetCode(), resp.GetMetaHeader().GetStatus().GetMessage()
+			case "search":
+				r := &protoobject.SearchV2Request{Body: &protoobject.SearchV2Request_Body{ContainerId: u.cnrs[1].ProtoMessage(), Version: 1, Count: 10}, MetaHeader: mh}
+				r.VerifyHeader, _ = neofscrypto.SignRequestWithBuffer(signer, r, nil)
+				resp, err := cl.SearchV2(ctx, r)
+				rpcErr = err
+				code, msg = resp.GetMetaHeader().GetStatus().GetCode(), resp.GetMetaHeader().GetStatus().GetMessage()
+			case "put":
+				mo := obj.ProtoMessage()
+				r := &protoobject.PutRequest{Body: &protoobject.PutRequest_Body{ObjectPart: &protoobject.PutRequest_Body_Init_{Init: &protoobject.PutRequest_Body_Init{
+					ObjectId: mo.ObjectId, Header: mo.Header}}}, MetaHeader: mh}
+				r.VerifyHeader, _ = neofscrypto.SignRequestWithBuffer(signer, r, nil)
+				st, err := cl.Put(ctx)
+				rpcErr = err
+				if err == nil {
+					_ = st.Send(r)
+					resp, err := st.CloseAndRecv()
+					rpcErr = err
+					code, msg = resp.GetMetaHeader().GetStatus().GetCode(), resp.GetMetaHeader().GetStatus().GetMessage()
+				}
 			}
 		}
+		if warm != nil {
+			// the valid original first, on the same Server instance, then its invalidated copy
+			real := mh.BearerToken
+			mh.BearerToken = warm
+			send()
+			mh.BearerToken = real
+			w.mu.Lock()
+			w.effects, w.bearerEr, w.infoErr, w.basic, w.sticky, w.eaclRes, w.role = nil, false, false, nil, nil, nil, 0
+			w.mu.Unlock()
+		}
+		send()
 		w.mu.Lock()
 		o := obsF{Code: code, RPCErr: rpcErr != nil, Role: int(w.role)}
 		switch {
